@@ -177,10 +177,7 @@ class Run:
         self.log_path = os.path.join(self.tmp, "starts.log")
         open(self.log_path, "w").close()
         self.kind = {}
-        for i, (n, x, kind) in enumerate(services):
-            self.kind[bus_name(n)] = kind
-            with open(os.path.join(self.sd, "%s%d.service" % (n, i)), "w") as f:
-                f.write("[D-BUS Service]\nName=%s\nExec=%s\n" % (bus_name(n), exec_line(kind, x, self.ctl_path, self.log_path)))
+        self.write_services(services)
         self.ctl = socket.socket(socket.AF_UNIX, socket.SOCK_STREAM)
         self.ctl.bind(self.ctl_path)
         self.ctl.listen(16)
@@ -199,6 +196,26 @@ class Run:
         self.nspawn_log = 0
         self.timed = timed
         self.notes = []
+
+    def write_services(self, services):
+        """make the service directory hold exactly these files; files are only ever added or removed (never rewritten in
+        place: the bus compares modification times with a granularity of one second)"""
+        want = {}
+        self.kind = {}
+        for n, x, kind in services:
+            self.kind.setdefault(bus_name(n), kind)
+            want["%s_x%d_k%d.service" % (n, x, kind)] = "[D-BUS Service]\nName=%s\nExec=%s\n" % (
+                bus_name(n), exec_line(kind, x, self.ctl_path, self.log_path))
+        for fn in os.listdir(self.sd):
+            if fn not in want:
+                os.unlink(os.path.join(self.sd, fn))
+        for fn, text in want.items():
+            dst = os.path.join(self.sd, fn)
+            if not os.path.exists(dst):
+                tmpf = os.path.join(self.tmp, "new.service")
+                with open(tmpf, "w") as f:
+                    f.write(text)
+                os.rename(tmpf, dst)
 
     def connect_raw(self):
         t_end = time.time() + 10
@@ -319,7 +336,7 @@ class Run:
             if rs is not None and rs >= HIGH:
                 return None                              # the harness's own round trips
             k = self.kinds.get((ci, rs), "?")
-            return "%d:%s.%d.%s" % (ci, k, rs, m.body[0] if m.body else "none")
+            return "%d:%s.%d.%s" % (ci, k, rs, m.body[0] if m.body else 0)
         if m.mtype == ERROR and snd == BUS:
             en = m.fields.get(F_ERROR_NAME, "")
             return "%d:e.%d.%s" % (ci, rs or 0, ERR_SHORT.get(en, en))
@@ -355,6 +372,21 @@ class Run:
             elif k in "RL":
                 self.kinds[(c, serial)] = "d"
             self.conns[c].send(self.message(c, k, serial, name, clno))
+        elif k == "Z":
+            c, serial = int(p[1]), int(p[2])
+            self.kinds[(c, serial)] = "d"
+            f = {F_PATH: "/org/freedesktop/DBus", F_INTERFACE: BUS, F_DESTINATION: BUS, F_MEMBER: "ReloadConfig"}
+            self.conns[c].send(Msg(METHOD_CALL, 0, serial, f, "", ()))
+        elif k == "V":
+            spec = tok[2:]
+            svcs = [] if spec == "-" else [(a, int(b), {"1": 1, "0": 0, "2": 2}[c2]) for a, b, c2 in (t.split(":") for t in spec.split(","))]
+            self.write_services(svcs)
+            # the directory watch makes the bus reload by itself, at a moment nobody can observe; an explicit reload by the
+            # observer, awaited, makes sure it has happened before the next event
+            r = self.obs.call("ReloadConfig")
+            if r is None or r.mtype != METHOD_RETURN:
+                self.notes.append("observer's ReloadConfig failed: %r" % (r,))
+            self.double_barrier()
         elif k == "D":
             c = int(p[1])
             cl = self.conns[c]
